@@ -140,6 +140,9 @@ pub enum Api {
     JhInput,
     /// (back end, vector type, op) with op in read_le, read_be, write_le, write_be
     VecIo(String, String, String),
+    /// as VecIo, but the slice is `delta` bytes longer/shorter than the vector: the call has to be
+    /// rejected (panic) or stay inside the slice - it must never touch memory outside it
+    VecIoLen(String, String, String, i8),
 }
 
 impl Api {
@@ -170,19 +173,20 @@ mod vecio {
     use ppv_lite86::*;
 
     #[inline(always)]
-    pub fn io<M: Machine>(m: M, ty: &str, op: &str, data: &[u8], mem: &mut dyn Mem) -> Vec<u8> {
+    pub fn io<M: Machine>(m: M, ty: &str, op: &str, data: &[u8], mem: &mut dyn Mem, delta: i32) -> Vec<u8> {
         macro_rules! go {
             ($t:ty, $n:expr, $st:ident, $by:ident) => {{
+                let slen = ($n as i32 + delta).max(0) as usize;
                 match op {
                     "read_le" | "read_be" => {
-                        let s = mem.slot(0, $n);
-                        s.copy_from_slice(&data[..$n]);
+                        let s = mem.slot(0, slen);
+                        s.copy_from_slice(&data[..slen]);
                         let v: $t = if op == "read_le" { m.read_le(&*s) } else { m.read_be(&*s) };
                         $by(v.into())
                     }
                     _ => {
                         let v: $t = m.unpack($st(&data[..$n]));
-                        let s = mem.slot(0, $n);
+                        let s = mem.slot(0, slen);
                         if op == "write_le" { v.write_le(s) } else { v.write_be(s) }
                         s.to_vec()
                     }
@@ -200,31 +204,31 @@ mod vecio {
     }
 
     #[cfg(not(feature = "cfg-nosimd"))]
-    pub fn dispatch(be: &str, ty: &str, op: &str, data: &[u8], mem: &mut dyn Mem) -> Vec<u8> {
+    pub fn dispatch(be: &str, ty: &str, op: &str, data: &[u8], mem: &mut dyn Mem, delta: i32) -> Vec<u8> {
         use ppv_lite86::x86_64::{AVX, AVX2, SSE2, SSE41, SSSE3};
         #[target_feature(enable = "avx2")]
-        unsafe fn avx2(ty: &str, op: &str, d: &[u8], mem: &mut dyn Mem) -> Vec<u8> { io(AVX2::instance(), ty, op, d, mem) }
+        unsafe fn avx2(ty: &str, op: &str, d: &[u8], mem: &mut dyn Mem, dl: i32) -> Vec<u8> { io(AVX2::instance(), ty, op, d, mem, dl) }
         #[target_feature(enable = "avx,sse4.1,ssse3")]
-        unsafe fn avx(ty: &str, op: &str, d: &[u8], mem: &mut dyn Mem) -> Vec<u8> { io(AVX::instance(), ty, op, d, mem) }
+        unsafe fn avx(ty: &str, op: &str, d: &[u8], mem: &mut dyn Mem, dl: i32) -> Vec<u8> { io(AVX::instance(), ty, op, d, mem, dl) }
         #[target_feature(enable = "sse4.1,ssse3")]
-        unsafe fn sse41(ty: &str, op: &str, d: &[u8], mem: &mut dyn Mem) -> Vec<u8> { io(SSE41::instance(), ty, op, d, mem) }
+        unsafe fn sse41(ty: &str, op: &str, d: &[u8], mem: &mut dyn Mem, dl: i32) -> Vec<u8> { io(SSE41::instance(), ty, op, d, mem, dl) }
         #[target_feature(enable = "ssse3")]
-        unsafe fn ssse3(ty: &str, op: &str, d: &[u8], mem: &mut dyn Mem) -> Vec<u8> { io(SSSE3::instance(), ty, op, d, mem) }
-        unsafe fn sse2(ty: &str, op: &str, d: &[u8], mem: &mut dyn Mem) -> Vec<u8> { io(SSE2::instance(), ty, op, d, mem) }
+        unsafe fn ssse3(ty: &str, op: &str, d: &[u8], mem: &mut dyn Mem, dl: i32) -> Vec<u8> { io(SSSE3::instance(), ty, op, d, mem, dl) }
+        unsafe fn sse2(ty: &str, op: &str, d: &[u8], mem: &mut dyn Mem, dl: i32) -> Vec<u8> { io(SSE2::instance(), ty, op, d, mem, dl) }
         unsafe {
             match be {
-                "sse2" => sse2(ty, op, data, mem),
-                "ssse3" => ssse3(ty, op, data, mem),
-                "sse41" => sse41(ty, op, data, mem),
-                "avx" => avx(ty, op, data, mem),
-                "avx2" => avx2(ty, op, data, mem),
+                "sse2" => sse2(ty, op, data, mem, delta),
+                "ssse3" => ssse3(ty, op, data, mem, delta),
+                "sse41" => sse41(ty, op, data, mem, delta),
+                "avx" => avx(ty, op, data, mem, delta),
+                "avx2" => avx2(ty, op, data, mem, delta),
                 _ => panic!("HARNESS: unknown back end"),
             }
         }
     }
     #[cfg(feature = "cfg-nosimd")]
-    pub fn dispatch(_be: &str, ty: &str, op: &str, data: &[u8], mem: &mut dyn Mem) -> Vec<u8> {
-        io(unsafe { ppv_lite86::generic::GenericMachine::instance() }, ty, op, data, mem)
+    pub fn dispatch(_be: &str, ty: &str, op: &str, data: &[u8], mem: &mut dyn Mem, delta: i32) -> Vec<u8> {
+        io(unsafe { ppv_lite86::generic::GenericMachine::instance() }, ty, op, data, mem, delta)
     }
 }
 
@@ -358,20 +362,39 @@ pub fn exec(c: &AlignCase, mem: &mut dyn Mem) -> Vec<u8> {
             comp.input(digest::generic_array::GenericArray::from_slice(s));
             comp.finalize().to_vec()
         }
-        Api::VecIo(be, ty, op) => vecio::dispatch(be, ty, op, &data, mem),
+        Api::VecIo(be, ty, op) => vecio::dispatch(be, ty, op, &data, mem, 0),
+        Api::VecIoLen(be, ty, op, delta) => vecio::dispatch(be, ty, op, &data, mem, *delta as i32),
     }
 }
 
 pub fn align_check(c: &AlignCase, info: &mut CaseInfo) -> Result<(), Fail> {
     let apiname = match &c.api {
         Api::VecIo(be, ty, op) => format!("VecIo:{}:{}:{}", be, ty, op),
+        Api::VecIoLen(be, ty, op, _) => format!("VecIoLen:{}:{}:{}", be, ty, op),
         other => format!("{:?}", other),
     };
     let fail = |kind: &str, d: String| Fail::new(format!("C16:{}:{}", apiname, kind), d);
     let mut plain = PlainMem::new();
-    let want = guard(|| exec(c, &mut plain)).map_err(|p| fail("PLAIN-PANIC", format!("call on an ordinary buffer panicked: {}", p)))?;
+    let wrong_len = matches!(c.api, Api::VecIoLen(..));
+    let want = guard(|| exec(c, &mut plain));
     let mut am = ArenaMem::new(c.placement);
     let got = guard(|| exec(c, &mut am));
+    if wrong_len {
+        // a slice of the wrong size: rejection (panic) is the accepted outcome, identically for every
+        // placement; what must never happen is an access outside the slice (guard page / canaries)
+        info.label("api VecIo with a slice of the wrong length");
+        info.label_if(matches!(c.placement, Placement::EndAtGuard), "slice ends at an unmapped page");
+        info.label_if(matches!(c.placement, Placement::StartAfterGuard), "slice starts after an unmapped page");
+        info.nontrivial = true;
+        am.canaries_intact().map_err(|e| fail("OUTSIDE-WRITE", format!("{:?}: {}", c.placement, e)))?;
+        return match (want, got) {
+            (Err(_), Err(_)) => Ok(()),
+            (Ok(w), Ok(g)) if w == g => Ok(()),
+            (w, g) => Err(fail("DIFFERS", format!("{:?}: outcome on the placed slice ({}) differs from the ordinary buffer ({})", c.placement,
+                if g.is_ok() { "returned" } else { "panicked" }, if w.is_ok() { "returned" } else { "panicked" }))),
+        };
+    }
+    let want = want.map_err(|p| fail("PLAIN-PANIC", format!("call on an ordinary buffer panicked: {}", p)))?;
     match c.placement {
         Placement::EndAtGuard => info.label("slice ends at an unmapped page"),
         Placement::StartAfterGuard => info.label("slice starts after an unmapped page"),
@@ -381,7 +404,7 @@ pub fn align_check(c: &AlignCase, info: &mut CaseInfo) -> Result<(), Fail> {
         }
     }
     info.label(match &c.api {
-        Api::VecIo(..) => "api VecIo".to_string(),
+        Api::VecIo(..) | Api::VecIoLen(..) => "api VecIo".to_string(),
         Api::HashUpdate(_) => "api HashUpdate".to_string(),
         Api::HashFinalizeInto(_) => "api HashFinalizeInto".to_string(),
         Api::CipherApply(_) => "api CipherApply".to_string(),
@@ -452,6 +475,18 @@ pub fn run_c16(ctx: &mut Ctx) {
                 let len = lens[li % lens.len()];
                 li += 1;
                 cases.push(AlignCase { api: api.clone(), placement: p, len, seed: crate::engine::splitmix(&mut s) });
+            }
+        }
+    }
+    // slices of the wrong length for the vector byte I/O (must be rejected or stay in bounds)
+    for be in VEC_BACKENDS {
+        for (ty, _) in VEC_TYPES {
+            for op in VEC_OPS {
+                for delta in [-16i8, -9, -1, 1, 16] {
+                    for p in [Placement::EndAtGuard, Placement::StartAfterGuard, Placement::Interior(3)] {
+                        cases.push(AlignCase { api: Api::VecIoLen(be.to_string(), ty.to_string(), op.to_string(), delta), placement: p, len: 64, seed: crate::engine::splitmix(&mut s) });
+                    }
+                }
             }
         }
     }
